@@ -4,6 +4,7 @@ package fsloop
 
 import (
 	"errors"
+	"os"
 	"sync"
 
 	"github.com/goatcms/goatcore/filesystem"
@@ -37,6 +38,21 @@ func (v *zzVisit) end() {
 		v.late = true
 	}
 	v.mu.Unlock()
+}
+
+// zzFailList wraps a filespace; listing the directory bad fails.
+type zzInner = filesystem.Filespace
+
+type zzFailList struct {
+	zzInner
+	bad string
+}
+
+func (f zzFailList) ReadDir(p string) ([]os.FileInfo, error) {
+	if p == f.bad || p == f.bad+"/" {
+		return nil, errors.New("listing failed")
+	}
+	return f.zzInner.ReadDir(p)
 }
 
 // ZZVerifC08Loop: the loop calls the file callback once per accepted file
@@ -83,10 +99,16 @@ func zzLoop(pBound, nShapes, maxC, maxPR int) {
 	producers := 1 + nd.Choose("producers", maxPR)
 	rejectDir := nd.Choose("reject-dir", 2) == 1 && len(dirs) > 0
 	failFile := nd.Bool("fail-file")
+	// a listing error in the sub-directory (if there is one and it is entered)
+	failList := len(dirs) > 0 && !rejectDir && nd.Bool("fail-listing")
+	var walked filesystem.Filespace = fs
+	if failList {
+		walked = zzFailList{zzInner: fs, bad: "./d"}
+	}
 	v := &zzVisit{seen: map[string]int{}}
 	injected := errors.New("callback failed")
 	data := &LoopData{
-		Filespace: fs,
+		Filespace: walked,
 		OnFile: func(_ filesystem.Filespace, p string) error {
 			v.begin(p)
 			nd.Yield()
@@ -142,10 +164,13 @@ func zzLoop(pBound, nShapes, maxC, maxPR int) {
 			nd.Assert(n <= 1, "C08/node-repeated-on-error")
 		}
 	}
-	if failFile && len(wantFiles) > 0 {
+	if failFile && len(wantFiles) > 0 && !failList {
 		nd.Assert(len(errs) > 0, "C08/callback-error-reported")
 	}
-	if !failFile {
+	if failList {
+		nd.Assert(len(errs) > 0, "C08/listing-error-reported")
+	}
+	if !failFile && !failList {
 		nd.Assert(len(errs) == 0, "C08/no-spurious-error")
 	}
 	nd.Assert(v.maxRun <= consumers, "C08/more-callbacks-than-consumers")
